@@ -129,6 +129,27 @@ def guard_edges_multi(body, specs):
     return out
 
 
+def named_source(body, operand, depth=8):
+    """name of the user variable an operand moves/copies from (through unnamed temporaries)"""
+    p = F.op_place(operand)
+    for _ in range(depth):
+        if p is None:
+            return None
+        l = p[0]
+        n = body.locals[l].get("n")
+        if n:
+            return n
+        ds = body.defs().get(l, [])
+        if len(ds) == 1 and ds[0][2] == "assign" and ds[0][3]["rv"] == "use":
+            p = F.op_place(ds[0][3]["o"])
+            continue
+        if len(ds) == 1 and ds[0][2] == "assign" and ds[0][3]["rv"] == "ref":
+            p = ds[0][3]["p"]
+            continue
+        return None
+    return None
+
+
 VIEW_CALLS = ("::deref", "::deref_mut", "::as_ref", "::as_mut", "::as_slice", "::as_mut_slice", "::borrow", "::as_bytes", "::as_str")
 
 
